@@ -289,6 +289,8 @@ func checkC16(e *Env) {
 	// (e) map order in the writer
 	scope := e.P.Reachable(e.P.VTA(), e.fns(pkg+"(ListOfLists).String", pkg+"(ParameterisedList).String", pkg+"(*ParameterisedIdentifier).String")...)
 	mapOrderN(e, scope, 1)
+	iterationsIndependent(e, "ITER", e.fns("signedexchange.(*Signer).signatureHeaderValue", "signedexchange.extractSignatureFields")...)
+	e.R.Floor("ITER", 6)
 	e.R.Floor("GATE", 13)
 	e.R.Floor("FORALL", 3)
 	e.R.Floor("TABLE", 5)
